@@ -31,7 +31,6 @@ Definition class_table : list (string * string * cls) := [
   ("nanovm__vmd_server.o",  "g_active_clients",   MutexCounter);
   ("nanovm__vmd_server.o",  "g_client_count_mutex", Mutex);
   ("nanovm__vmd_server.o",  "g_shutdown",         Flag);
-  ("nanovm__vm.o",          "vm_verif_env_read",  WriteOnceIdempotent);
   ("nanovm__vm.o",          "vm_verif_fuel",      HookInert);
   ("nanovm__vm.o",          "vm_verif_step_cb",   HookInert);
   ("nanovm__heap.o",        "vm_verif_heap_cb",   HookInert);
